@@ -196,7 +196,6 @@ def problems(env, cfg, tier):
         with K.with_attr(env, "time_limit", T):
             s2, ts = env.step(s, a)
         o = ts.observation
-        body, head, tail, fruit = spec_obs_planes(env, s2)
         f = lambda b: jnp.where(b, 1.0, 0.0)
         return {
             "C04.mask_fn_is_the_rule_for_all_states": s2.action_mask == legal(env, s2),
